@@ -2,7 +2,7 @@ PROP = dict(
         coq="Properties/C19.v",
         workloads=[
             dict(name="gauge-history", go_test="TestC19", runner="C19",
-                 env=dict(quick=dict(VERIF_CASES=120), thorough=dict(VERIF_CASES=2500))),
+                 env=dict(quick=dict(VERIF_CASES=90), thorough=dict(VERIF_CASES=2500))),
             dict(name="split", go_test="TestC19Split", runner="C19-split",
                  env=dict(quick=dict(VERIF_CASES=1500), thorough=dict(VERIF_CASES=60000, VERIF_EXHAUSTIVE=1))),
         ],
